@@ -1,6 +1,8 @@
 package main
 
 import (
+	"archive/tar"
+	"bytes"
 	"context"
 	"fmt"
 	"os"
@@ -508,6 +510,8 @@ func cacheEngine(c *Ctx) {
 				cacheForeignOrder(c, op)
 			} else if strings.HasPrefix(op, "cache-keyedlookup ") {
 				cacheKeyedLookup(c, op)
+			} else if strings.HasPrefix(op, "cache-rejectsame ") {
+				cacheRejectSame(c, op)
 			} else if strings.HasPrefix(op, "cache-commitfails ") {
 				cacheCommitFails(c, op)
 			}
@@ -521,6 +525,9 @@ func cacheEngine(c *Ctx) {
 		cacheCommitFails(c, fmt.Sprintf("cache-commitfails %s %s %s", []string{"tar", "zip"}[i%2], how, []string{"none", "copy", "mount", "copy", "none", "none", "none", "copy"}[i]))
 	}
 	cacheKeyedLookup(c, "cache-keyedlookup tar")
+	for k := 0; k < 4; k++ {
+		cacheRejectSame(c, fmt.Sprintf("cache-rejectsame %d", k))
+	}
 	cacheKeyedLookup(c, "cache-keyedlookup zip")
 	n := 25
 	if c.Tier == "thorough" {
@@ -652,6 +659,71 @@ func cacheKeyedLookup(c *Ctx, op string) {
 			c.PropFail("cache-panic", "a request spelled like a shelf directory panicked: "+pan, op)
 		} else if uerr == nil {
 			c.PropFail("shelf-not-verified", fmt.Sprintf("a lossless request for %q — not the id of any fileset, nothing was fetched or hashed, no warehouse given — was answered %s from the shelf of a filtered tree", name, got), op)
+		}
+	}
+}
+
+// cacheRejectSame: hand-written archives whose headers claim what no file system materialises or what only some entry
+// kinds carry (setuid bits on a symlink, on a directory, on a fifo; a device) — the verdict of every reject setting is the
+// same on a cold cache, on a cache warmed by a lossless unpack, and for direct placement. Recipe: "cache-rejectsame <k>".
+func cacheRejectSame(c *Ctx, op string) {
+	c.Begin(op)
+	k := 0
+	fmt.Sscan(strings.Fields(op)[1], &k)
+	caseCounter++
+	base := filepath.Join(c.Work, fmt.Sprintf("crs%d", caseCounter))
+	defer rmrf(base)
+	os.MkdirAll(base, 0755)
+	var buf bytes.Buffer
+	tw := tar.NewWriter(&buf)
+	t0 := time.Unix(1e9, 0)
+	tw.WriteHeader(&tar.Header{Name: "./", Typeflag: tar.TypeDir, Mode: 0755, ModTime: t0})
+	switch k % 4 {
+	case 0:
+		tw.WriteHeader(&tar.Header{Name: "./lnk", Typeflag: tar.TypeSymlink, Linkname: "target", Mode: 04777, ModTime: t0})
+	case 1:
+		tw.WriteHeader(&tar.Header{Name: "./lnk", Typeflag: tar.TypeSymlink, Linkname: "target", Mode: 02777, ModTime: t0})
+		tw.WriteHeader(&tar.Header{Name: "./plain", Typeflag: tar.TypeReg, Mode: 0644, ModTime: t0})
+	case 2:
+		tw.WriteHeader(&tar.Header{Name: "./sgdir/", Typeflag: tar.TypeDir, Mode: 02755, ModTime: t0})
+	case 3:
+		tw.WriteHeader(&tar.Header{Name: "./pipe", Typeflag: tar.TypeFifo, Mode: 04644, ModTime: t0})
+	}
+	tw.Close()
+	ware := filepath.Join(base, "w.tar")
+	os.WriteFile(ware, buf.Bytes(), 0644)
+	wh := []api.WarehouseLocation{api.WarehouseLocation("file://" + ware)}
+	ctx := context.Background()
+	c.EmitR(op, "skip", "skip")
+	id, err, _ := safeCall(func() (api.WareID, error) {
+		return tartrans.Scan(ctx, "tar", api.MustParseFilesetUnpackFilter(losslessUnpackStr), rio.Placement_None, wh[0], rio.Monitor{})
+	})
+	if err != nil {
+		return
+	}
+	for _, fl := range []string{"uid=follow,gid=follow,mtime=follow,sticky=follow,setid=reject,dev=follow", "uid=follow,gid=follow,mtime=follow,sticky=follow,setid=follow,dev=reject"} {
+		verdict := func(cache string, mode rio.PlacementMode, n int) string {
+			os.Setenv("RIO_CACHE", cache)
+			_, e, pan := safeCall(func() (api.WareID, error) {
+				return tartrans.Unpack(ctx, id, filepath.Join(base, fmt.Sprintf("d%d", n)), api.MustParseFilesetUnpackFilter(fl), mode, wh, rio.Monitor{})
+			})
+			rmrf(filepath.Join(base, fmt.Sprintf("d%d", n)))
+			if pan != "" {
+				return "panic"
+			}
+			return catOf(e)
+		}
+		cold := verdict(filepath.Join(base, "cache-cold-"+fl[len(fl)-10:]), rio.Placement_Copy, 1)
+		warmCache := filepath.Join(base, "cache-warm-"+fl[len(fl)-10:])
+		os.Setenv("RIO_CACHE", warmCache)
+		safeCall(func() (api.WareID, error) {
+			return tartrans.Unpack(ctx, id, "-", api.MustParseFilesetUnpackFilter(losslessUnpackStr), rio.Placement_None, wh, rio.Monitor{})
+		})
+		warm := verdict(warmCache, rio.Placement_Copy, 2)
+		direct := verdict(filepath.Join(base, "cache-direct-"+fl[len(fl)-10:]), rio.Placement_Direct, 3)
+		c.H(fmt.Sprintf("rejectsame:%d:%s:%s", k%4, fl[len(fl)-22:], cold))
+		if cold != warm || cold != direct {
+			c.PropFail("filter-warm-cache", fmt.Sprintf("the same ware and the same filter (%s): cold cache answers %s, a cache already holding the ware answers %s, direct placement answers %s", fl, cold, warm, direct), op)
 		}
 	}
 }
